@@ -1,9 +1,107 @@
-import SoundeventModel.Ops.Common
-namespace SE.Ops.C03
-open Lean SE
+/-
+  C03 — JSON glue.
 
-def handle (op : String) (_a : Json) : Except String Json := do
+  raw coordinates : nested JSON arrays whose leaves are rationals ("n/d" strings or integers)
+  construct        {"cls": name, "type": str | null, "coordinates": raw | null}
+  geometry_validate{"mode": str, "obj": {"kind": "str", "parsed": doc | null}
+                                      | {"kind": "val", "doc": doc}
+                                      | {"kind": "attrs", "type": str | null, "coordinates": raw | null}}
+                   doc = {"type": str | null, "coordinates": raw | null} | "other"
+  holds            {"cls": name, "coordinates": raw, "out": {"val": {"cls", "coordinates"}} | {"raise": e}}
+  replies          {"val": {"type": t, "cls": class name, "coordinates": raw}} | {"raise": "invalid"}
+-/
+import SoundeventModel.Ops.Common
+import SoundeventModel.Validate
+import SoundeventModel.ValidateTactics
+namespace SE.Ops.C03
+open Lean SE SE.Validate
+
+partial def getRaw (j : Json) : Except String Raw :=
+  match j with
+  | .arr xs => do return .arr (← xs.toList.mapM getRaw)
+  | j => do return .num (← getRat j)
+
+partial def rawJ : Raw → Json
+  | .num q => ratJ q
+  | .arr xs => arrJ (xs.map rawJ)
+
+def optStr (j : Json) (k : String) : Except String (Option String) :=
+  match fldOpt j k with
+  | none => .ok none
+  | some v => do return some (← v.getStr?)
+
+def optRaw (j : Json) (k : String) : Except String (Option Raw) :=
+  match fldOpt j k with
+  | none => .ok none
+  | some v => do return some (← getRaw v)
+
+def getDoc (j : Json) : Except String Doc :=
+  match j with
+  | .str "other" => .ok .other
+  | j => do return .dict (← optStr j "type") (← optRaw j "coordinates")
+
+def getObj (j : Json) : Except String PyObj := do
+  match ← fldStr j "kind" with
+  | "str" =>
+    match fldOpt j "parsed" with
+    | none => return .str none
+    | some d => return .str (some (← getDoc d))
+  | "val" => return .val (← getDoc (← fld j "doc"))
+  | "attrs" => return .attrs (← optStr j "type") (← optRaw j "coordinates")
+  | k => .error s!"unknown object kind {k}"
+
+def getMode : String → Mode
+  | "json" => .json
+  | "dict" => .dict
+  | "attributes" => .attributes
+  | _ => .other
+
+def getCls (name : String) : Except String Cls :=
+  match table.lookup name with
+  | some c => .ok c
+  | none => .error s!"unknown class {name}"
+
+def raiseV (e : VErr) : Json := Json.mkObj [("raise", Json.str e.name)]
+
+def objJ (o : Obj) : Json :=
+  valJ (Json.mkObj [("type", Json.str o.1), ("cls", Json.str (GType.of o.2).tag),
+                    ("coordinates", rawJ (dump o.2))])
+
+def resJ : R Obj → Json
+  | .ok o => objJ o
+  | .error e => raiseV e
+
+/-- the implementation's output, read back as a value of the model (`none`: not the coordinates of
+    an object of that class, which `holdsB` then rejects through a class mismatch) -/
+def getOut (j : Json) : Except String (Option (R Geom)) := do
+  match fldOpt j "raise" with
+  | some e =>
+    match ← e.getStr? with
+    | "invalid" => return some (.error .invalid)
+    | _ => return some (.error .crash)
+  | none =>
+    let v ← fld j "val"
+    let cls ← getCls (← fldStr v "cls")
+    match decode cls.ty (← getRaw (← fld v "coordinates")) with
+    | some g => return some (.ok g)
+    | none => return none
+
+def handle (op : String) (a : Json) : Except String Json := do
   match op with
+  | "construct" =>
+    let c ← getCls (← fldStr a "cls")
+    return resJ (construct c (← optStr a "type") (← optRaw a "coordinates"))
+  | "geometry_validate" =>
+    return resJ (geometryValidate table (getMode (← fldStr a "mode")) (← getObj (← fld a "obj")))
+  | "holds" =>
+    let c ← getCls (← fldStr a "cls")
+    let r ← getRaw (← fld a "coordinates")
+    match ← getOut (← fld a "out") with
+    | some out => return boolJ (holdsB c.ty r out)
+    | none => return boolJ false
+  | "spec" =>
+    let c ← getCls (← fldStr a "cls")
+    return boolJ (specB c.ty (← getRaw (← fld a "coordinates")))
   | _ => .error s!"C03: unknown op {op}"
 
 end SE.Ops.C03
